@@ -90,6 +90,9 @@ func c14Run(c *Ctx) {
 	if c.Idx%8 == 4 {
 		c14Dispatch(c)
 	}
+	if c.Idx%64 == 5 {
+		c14KeyCollisions(c)
+	}
 	nEx := c14Exhaustive()
 	exCases := (nEx + c14PairsPerCase - 1) / c14PairsPerCase
 	for k := 0; k < c14PairsPerCase; k++ {
@@ -154,6 +157,45 @@ func c14Run(c *Ctx) {
 			dt = gen.Data13[c.R.Intn(len(gen.Data13))]
 		}
 		c14Pair(c, sa, sb, dt)
+	}
+}
+
+// c14KeyCollisions: the helpers are stateless, so what they answer for a pair of shapes may not
+// depend on the pairs answered before. A plan or verdict remembered per shape pair under a weak
+// key (a polynomial fold of the extents, the extents written one after another) is invisible on
+// one-digit extents; these sequences are pairs of shape pairs that coincide under the common
+// weak keys: (x, y+b) ~ (x+1, y) for the fold bases b in use for hashing, and decimal
+// spellings that read the same without separators. The second pair of each sequence needs another
+// plan (or a refusal) than the first.
+type shapePair struct{ a, b []int }
+
+func weakKeySeqs(y int) [][2]shapePair {
+	type pair = shapePair
+	var seqs [][2]pair
+	for _, b := range []int{10, 16, 31, 33, 37, 61} {
+		seqs = append(seqs,
+			[2]pair{{[]int{1, b + y}, []int{3, b + y}}, {[]int{2, y}, []int{3, b + y}}}, // compatible, then not
+			[2]pair{{[]int{1, b + 1}, []int{1, 1}}, {[]int{2, 1}, []int{1, 1}}},         // stretch B's last axis, then its first
+			[2]pair{{[]int{2, y}, []int{1, b + y + 1}}, {[]int{1, b + y}, []int{1, b + y + 1}}},
+			[2]pair{{[]int{b + y, 1, 1}, []int{1, y, 1}}, {[]int{b + y, 1}, []int{b + y, 1}}},
+		)
+	}
+	seqs = append(seqs,
+		[2]pair{{[]int{1, 1, 1}, []int{1, 1, 1}}, {[]int{11, 1}, []int{1, 11}}},
+		[2]pair{{[]int{1, 12}, []int{1, 1}}, {[]int{11, 2}, []int{1, 1}}},
+		[2]pair{{[]int{2, 1}, []int{1, 21}}, {[]int{21}, []int{1, 21}}},
+		[2]pair{{[]int{1, 1, 3}, []int{1, 3}}, {[]int{11, 3}, []int{1, 3}}},
+	)
+	return seqs
+}
+
+func c14KeyCollisions(c *Ctx) {
+	y := 2 + int((uint64(c.Seed)+uint64(c.Idx/64))%7)
+	for _, s := range weakKeySeqs(y) {
+		for _, p := range s {
+			c14Pair(c, p.a, p.b, ref.U8)
+			c.Count("weak-key-collision-pairs", 1)
+		}
 	}
 }
 
